@@ -21,10 +21,13 @@ OBLIGATIONS = [
     "KafVerif.C20.present_routes_correct",
     "KafVerif.C20.norev_violates_startup",
     "KafVerif.C20.norev_violates_failed_reload",
+    "KafVerif.C20.skipSameRev_violates",
+    "KafVerif.C20.reload_unsticks",
 ]
 ASSUMPTIONS = [
     "etcd watch contract: a watch created with start revision w delivers every event with revision >= w, in order; a Get is a snapshot at its header revision",
-    "a compacted start revision fails the watch and the loop reloads (modelled as close + load)",
+    "one etcd revision is never split over two watch responses, and the loop applies a whole response under its lock (deliver = one revision's events, processed event by event with the code's bookkeeping)",
+    "compaction: a watch whose start revision lies before the compaction point fails with ErrCompacted (the harness produces that response deterministically from the Watch call's start revision); compaction is only scheduled while the watch is down or fully caught up",
     "lease keys are the ones the lease managers write (<topic>/<int32> and <group id>): the key parsers are injective on them; aliasing spellings (+5, 05) are outside the model",
     "Invalidate is outside the property's quantifier; it is modelled and proved separately (an invalidated route is absent until re-learnt, never wrong)",
 ]
@@ -36,7 +39,7 @@ LEVEL_TEXT = ("Lean 4 theorem by induction over every history of lease puts/dele
 TECHNIQUE = "Lean 4 inductive invariant (table = snapshot at tracked revision) + Go/Lean differential correspondence with fault-injected watch streams"
 
 ACCEPTED = {"partition": [0, 1, 2, 3, 4, 10, 11], "group": [0, 1, 2, 3, 4]}
-NKEYS = {"partition": 12, "group": 6}
+NKEYS = {"partition": 12, "group": 5}   # group key 5 (empty id) doubles as the sync sentinel
 
 CORPUS = {
     "startup-gap": ["put 0 1", "start", "load ok", "put 1 2", "del 0", "watch", "sync"],
@@ -48,6 +51,12 @@ CORPUS = {
     "reload-replaces-changed": ["put 0 1", "start", "load ok", "watch", "sync", "close", "put 0 2", "del 0", "put 1 3", "load ok", "del 1", "watch", "sync"],
     "healthy-watch": ["start", "load ok", "watch", "put 0 1", "put 1 2", "del 0", "put 0 3", "sync", "del 1", "sync"],
     "invalidate-then-event": ["put 0 1", "put 1 1", "start", "load ok", "watch", "sync", "invalidate 0", "sync", "put 0 2", "sync", "invalidate 1", "close", "load fail", "watch", "sync"],
+    "session-revoke-two-keys-one-revision": ["put 0 1", "put 1 1", "put 2 2", "start", "load ok", "watch", "sync", "batch d:0 d:1", "sync", "batch p:0:3 p:1:3 d:2", "sync"],
+    "multi-key-revision-in-gap": ["put 0 1", "put 1 1", "start", "load ok", "batch d:0 d:1 p:2:2", "watch", "sync"],
+    "multi-key-revision-while-down": ["put 0 1", "put 1 1", "start", "load ok", "watch", "sync", "close", "batch d:0 d:1", "batch p:2:1 p:3:1", "load fail", "watch", "sync"],
+    "cut-compact-change-failed-reload": ["put 0 1", "start", "load ok", "watch", "sync", "close", "put 0 2", "put 1 3", "compact", "load fail", "watch", "load ok", "watch", "sync"],
+    "cut-compact-change": ["put 0 1", "put 1 1", "start", "load ok", "watch", "sync", "close", "del 1", "put 0 2", "compact", "put 2 2", "load ok", "watch", "sync"],
+    "cut-change-compact-caught-up": ["put 0 1", "start", "load ok", "watch", "put 1 1", "sync", "compact", "close", "put 0 2", "load fail", "watch", "sync"],
     "failed-start-then-start": ["put 0 1", "start", "load fail", "start", "load ok", "put 1 1", "watch", "sync"],
 }
 
@@ -57,7 +66,9 @@ def parse_sync(line):
     d = {}
     tag = None
     for x in f:
-        if "=" in x:
+        if x.startswith("watching="):
+            d["watching"] = x.endswith("true")
+        elif "=" in x:
             k, v = x.split("=", 1)
             d[k] = dict(p.split(":", 1) for p in v.split(",") if ":" in p) if v else {}
             d[k + "_raw"] = v
@@ -71,21 +82,26 @@ def monitor(ops, lines):
     watching = False
     for i, (op, line) in enumerate(zip(ops, lines)):
         f = op.split()
-        if line.split(" ")[0] in ("sync-timeout", "sync-error", "watch-not-established", "no-get", "no-watch", "constructor-hang") \
-                or line.startswith("unexpected-"):
-            return i, "watch-loop-stuck", "router did not reach the expected point of its load/watch loop: %s" % line.split(" ")[0]
+        if line.startswith("stuck-") or line.startswith("skipped-after-") or line == "harness-timeout":
+            return i, "router-never-converges", "the router's load/watch loop did not reach the next point within the step timeout: %s" % line.split(" ")[0]
         if f[0] == "reset":
             inval, watching = set(), False
         elif f[0] == "invalidate":
             inval.add(f[1])
         elif f[0] in ("put", "del"):
             inval.discard(f[1])
-        elif f[0] == "load" and f[1] == "ok":
-            inval = set()
+        elif f[0] == "batch":
+            for x in f[1:]:
+                inval.discard(x.split(":")[1])
+        elif f[0] == "load" and f[1] == "ok" and not watching:
+            inval = set()          # (a reload request while the watch is running is a no-op)
         elif f[0] == "watch":
-            watching = True
+            watching = watching or line == "-"
         elif f[0] == "close":
             watching = False
+        elif f[0] == "sync" and i == len(ops) - 1 and "watching=true" not in line.split(" "):
+            # every generated history ends with  load ok ; watch ; sync : a successful read can always be followed by a watch
+            return i, "router-never-converges", "after the final successful reload the router has no running watch (%s)" % line[:120]
         elif f[0] == "sync" and watching:
             tag, d = parse_sync(line)
             if "table" not in d:
@@ -109,6 +125,15 @@ def gen_events(rng, kind, n):
     nk = NKEYS[kind]
     hot = ACCEPTED[kind][:3]
     for _ in range(n):
+        if rng.chance(1, 4):
+            ks = list(ACCEPTED[kind][:4]) + [nk - 1]
+            evs = []
+            for _ in range(rng.range(2, 3)):
+                k = rng.choice(ks)
+                ks.remove(k)
+                evs.append("d:%d" % k if rng.chance(1, 2) else "p:%d:%d" % (k, rng.below(4)))
+            out.append("batch " + " ".join(evs))
+            continue
         k = rng.choice(hot) if rng.chance(2, 3) else rng.below(nk)
         if rng.chance(3, 5):
             out.append("put %d %d" % (k, rng.below(4)))
@@ -134,11 +159,25 @@ def gen_case(rng, kind, closes):
                 ops.append("invalidate %d" % rng.choice(ACCEPTED[kind][:3]))
                 ops += gen_events(rng, kind, rng.below(3))
         if seg < closes:
+            # the cut happens when the router has applied everything committed so far (how many pending
+            # events a real stream delivers before it breaks is timing, and matters once compaction is in play)
+            if ops[-1] != "sync":
+                ops.append("sync")
+            if rng.chance(1, 4):
+                ops.append("compact")               # compaction while fully caught up
             ops.append("close")
             ops += gen_events(rng, kind, rng.below(4))
-            ops.append("load ok" if rng.chance(1, 2) else "load fail")
-            ops += gen_events(rng, kind, rng.below(4))
-            ops.append("watch")
+            if rng.chance(1, 3):
+                ops.append("compact")               # compaction while the watch is down
+                ops += gen_events(rng, kind, rng.below(2))
+            if rng.chance(1, 2):
+                # a failed reload: the watch resumes from the tracked revision, or fails with ErrCompacted
+                ops += ["load fail", "watch"]
+                ops += gen_events(rng, kind, rng.below(3))
+                if rng.chance(1, 2):
+                    ops.append("sync")
+            # (no-ops in model and harness alike when the failed-reload watch is already running)
+            ops += ["load ok"] + gen_events(rng, kind, rng.below(4)) + ["watch"]
     ops.append("sync")
     return ops
 
@@ -165,9 +204,13 @@ def run_go_parallel(ck, binary, cases, tag, nproc=8):
             lines += cases[i][2]
         fn = ck.path("ops_%s_%d.txt" % (tag, bi))
         open(fn, "w").write("\n".join(lines) + "\n")
-        rc, out, err = ck.run_bin(binary, stdin_path=fn, timeout=900)
+        closes = sum(1 for l in lines if l == "close" or l == "watch")
+        rc, out, err = ck.run_bin(binary, stdin_path=fn, timeout=40 + 2 * closes + 8 * len(idxs))
         res = out.split("\n")[:-1]
-        if rc != 0 or len(res) != len(lines):
+        if rc == 124 and len(res) < len(lines):
+            # a hang is a finding, never a reason to wait: the unanswered ops are reported as such
+            res = res + ["harness-timeout"] * (len(lines) - len(res))
+        if rc not in (0, 124) or len(res) != len(lines):
             errors.append("bucket %d: rc=%s answered %d of %d lines; stderr: %s" % (bi, rc, len(res), len(lines), err[-600:]))
             return
         p = 0
@@ -282,7 +325,7 @@ def run(ck):
     ok = explore(ck, binary, cases, "main")
     if not ok and not ck.violations:
         hunt = [("hunt%d" % i, "partition" if i % 2 == 0 else "group", gen_case(ck.rng.fork(), "partition" if i % 2 == 0 else "group", 2))
-                for i in range(80)]
+                for i in range(40)]
         explore(ck, binary, hunt, "hunt", diff=False)
 
 
